@@ -13,6 +13,7 @@ import (
 	"net/url"
 	"os"
 	"os/exec"
+	"reflect"
 	"strings"
 	"sync"
 	"time"
@@ -869,6 +870,9 @@ func runC15(ctx *Ctx) {
 	if ctx.Want(cases + 31) {
 		c15AgentBinary(ctx, cases+31)
 	}
+	if ctx.Want(cases + 32) {
+		c15ServedNulls(ctx, cases+32)
+	}
 	for c := 0; c < ctx.N(2, 20); c++ {
 		if ctx.Want(cases + 3 + c) {
 			c15Agent(ctx, cases+3+c, ctx.Sub(cases+3+c))
@@ -1027,4 +1031,100 @@ func mustURL(s string) *url.URL {
 		fatal("%v", err)
 	}
 	return u
+}
+
+// c15ServedNulls: every method the production registrations actually serve (by reflection, not the
+// documented list: an extra exported method of a service registered without an allow-list is
+// served too), called with nothing but nulls, in every arity from none to one more than declared.
+// Each call gets a reply with its id, the process survives, and the next connection is served.
+func c15ServedNulls(ctx *Ctx, i int) {
+	var mon []string
+	ch := startC15Child(ctx)
+	defer ch.stop()
+	recv := map[string]interface{}{"p": &pool.VipnodePool{}, "payment": &payment.PaymentService{}, "dashboard": &status.PoolStatus{}}
+	type probeT struct {
+		name  string
+		arity int
+	}
+	var probes []probeT
+	for _, r := range productionRegistrations(ctx.Repo) {
+		rv, ok := recv[r.Recv]
+		if !ok {
+			continue
+		}
+		rt := reflect.TypeOf(rv)
+		for k := 0; k < rt.NumMethod(); k++ {
+			m := rt.Method(k)
+			name := r.Prefix + strings.ToLower(m.Name[:1]) + m.Name[1:]
+			if !allowed(r.Allow, name, r.Prefix) {
+				continue
+			}
+			n := 0
+			for a := 1; a < m.Type.NumIn(); a++ {
+				if m.Type.In(a).String() != "context.Context" {
+					n++
+				}
+			}
+			for ar := 0; ar <= n+1; ar++ {
+				probes = append(probes, probeT{name, ar})
+			}
+		}
+	}
+	sent := 0
+	for transport := 0; transport < 2 && ch.alive(); transport++ {
+		for k, pr := range probes {
+			if !ch.alive() {
+				break
+			}
+			nulls := make([]string, pr.arity)
+			for j := range nulls {
+				nulls[j] = "null"
+			}
+			body := fmt.Sprintf(`{"jsonrpc":"2.0","id":%d,"method":%q,"params":[%s]}`, 5000+k, pr.name, strings.Join(nulls, ","))
+			sent++
+			if transport == 0 {
+				rc, err := dialRaw(ch.tcp)
+				if err != nil {
+					mon = append(mon, fmt.Sprintf("c15-dead: cannot connect any more: %v", err))
+					break
+				}
+				rc.send(body)
+				answered := false
+				deadline := time.Now().Add(3 * time.Second)
+				for time.Now().Before(deadline) {
+					m, err := rc.next(time.Until(deadline))
+					if err != nil || m == nil {
+						break
+					}
+					if string(m["id"]) == fmt.Sprint(5000+k) {
+						answered = true
+						break
+					}
+				}
+				rc.c.Close()
+				if !answered && ch.alive() && len(mon) < 4 {
+					mon = append(mon, fmt.Sprintf("c15-no-reply: %s with %d null parameter(s) got no reply carrying its id", pr.name, pr.arity))
+				}
+			} else {
+				cl := &http.Client{Timeout: 4 * time.Second}
+				resp, err := cl.Post(fmt.Sprintf("http://127.0.0.1:%d/", ch.httpP), "application/json", strings.NewReader(body))
+				if err != nil {
+					if len(mon) < 4 {
+						mon = append(mon, fmt.Sprintf("c15-no-reply: %s with %d null parameter(s) over HTTP: no reply (%v)", pr.name, pr.arity, err))
+					}
+				} else {
+					ioutil.ReadAll(resp.Body)
+					resp.Body.Close()
+				}
+			}
+			if pl := wsPanic(ch.stderr.String()); pl != "" {
+				mon = append(mon, fmt.Sprintf("c15-handler-panic: %s with %d null parameter(s) made its handler panic: %s", pr.name, pr.arity, pl))
+				break
+			}
+		}
+	}
+	if !ch.alive() {
+		mon = append(mon, "c15-crash: the serving process died on a call with null parameters: "+panicLine(ch.stderr.String()))
+	}
+	ctx.Emit(Case{I: i, Kind: "served-methods-null-params", Desc: map[string]interface{}{"methods_x_arities": len(probes), "calls": sent}, Monitor: mon})
 }
